@@ -239,21 +239,24 @@ __CPROVER_ensures((u128)res[0] == TOQ(s, precomp, 0) && (u128)res[1] == TOQ(s, p
 __CPROVER_ensures(__CPROVER_old(FINR) == GROW ? (GS0[LANE] == s[2 * LANE] && GS1[LANE] == s[2 * LANE + 1] && GRES == (const void*)res) : (GS0[LANE] == __CPROVER_old(GS0[LANE]) && GS1[LANE] == __CPROVER_old(GS1[LANE]) && GRES == __CPROVER_old(GRES)))
 __CPROVER_ensures(FINR == __CPROVER_old(FINR) + 1)
 ;
+#define XBYTES (NROWS == 1 ? 32 : 64) /* NROWS == 1: the plain b*c product under the same contracts (operand tie) */
 void bbc_x2_ref__c(q120_mat1col_product_bbc_precomp* precomp, const uint64_t ell, q120b* const res, const q120b* const x, const q120c* const y)
 __CPROVER_requires(ell <= MAX_ELL && ACC[LANE] == 0 && CALLI == 0 && CALLR == 0 && FINR == 0 && GI < ell)
 __CPROVER_requires(__CPROVER_is_fresh(precomp, sizeof(*precomp)) && WF_BBC(precomp))
-__CPROVER_requires(__CPROVER_is_fresh(res, 32 * NROWS) && __CPROVER_is_fresh(x, ell * 64) && __CPROVER_is_fresh(y, ell * 32 * NROWS))
+__CPROVER_requires(__CPROVER_is_fresh(res, 32 * NROWS) && __CPROVER_is_fresh(x, ell * XBYTES) && __CPROVER_is_fresh(y, ell * 32 * NROWS))
 __CPROVER_assigns(__CPROVER_object_upto(res, 32 * NROWS), __CPROVER_object_whole(ACC), __CPROVER_object_whole(GTERM), __CPROVER_object_whole(GS0), __CPROVER_object_whole(GS1), CALLI, CALLR, FINR, GX, GY, GRES)
 __CPROVER_ensures((u128)GS0[LANE] + (((u128)GS1[LANE]) << 32) == ACC[LANE]) /*@bbc_x2_accumulator_words_of_row_sum_to_exact_sum_of_terms:C10,C04*/
 __CPROVER_ensures(GS0[LANE] <= BUDGET && GS1[LANE] <= BUDGET) /*@bbc_x2_accumulators_within_budget_no_wrap:C04,C10*/
 __CPROVER_ensures(GRES == (const void*)((const uint64_t*)res + 4 * GROW)) /*@bbc_x2_row_r_is_stored_at_result_block_r:C10*/
 __CPROVER_ensures((u128)((const uint64_t*)res)[4 * GROW + LANE] == (u128)GS0[LANE] + (u128)(GS1[LANE] & MASK2) * (u128)precomp->s2l_pow_red[LANE] + (u128)(GS1[LANE] >> BBC_H) * (u128)precomp->s2h_pow_red[LANE]) /*@bbc_x2_result_is_recombination_without_wrap:C10,C04*/
-__CPROVER_ensures(GX == (const void*)((const char*)x + 64 * GI + 32 * (GROW & 1)) && GY == (const void*)((const char*)y + 32 * NROWS * GI + 32 * GROW)) /*@bbc_x2_term_i_of_row_r_is_x_i_rmod2_times_y_i_r:C10*/
+__CPROVER_ensures(GX == (const void*)((const char*)x + XBYTES * GI + 32 * (GROW & 1)) && GY == (const void*)((const char*)y + 32 * NROWS * GI + 32 * GROW)) /*@bbc_x2_term_i_of_row_r_is_x_i_rmod2_times_y_i_r:C10*/
 ;
 void h_bbc_x2_ref(void) {
   q120_mat1col_product_bbc_precomp* p; uint64_t ell; q120b* r; const q120b* x; const q120c* y;
   ACC[LANE] = 0; CALLI = 0; CALLR = 0; FINR = 0; GI = nondet_u64();
-#if NROWS == 2
+#if NROWS == 1
+  q120_vec_mat1col_product_bbc_ref(p, ell, r, x, y);
+#elif NROWS == 2
   q120x2_vec_mat1col_product_bbc_ref(p, ell, r, x, y);
 #else
   q120x2_vec_mat2cols_product_bbc_ref(p, ell, r, x, y);
